@@ -327,6 +327,9 @@ class Run:
         def prep(p):
             uses = next(o['uses'] for o in kani_obls if o['profile'] == p)
             active = [o['name'] for o in kani_obls if o['profile'] == p]
+            for o in kani_obls:
+                if o['profile'] == p:
+                    active += o.get('keep', [])  # proof harnesses that Kani wants to see next to a stub_verified use
             try:
                 return self.prepare_kani(p, uses, active)
             except weave.WeaveError as e:
